@@ -38,6 +38,15 @@ def run_check(pid: str, tier: str) -> int:
             mod.controls(chk)
         return chk.finish()
     except AnalysisError as e:
+        # an obligation that has already failed for a reason not in the known-findings file is a violation whatever the rest of the analysis
+        # would have said: report it (exit 1) and say that the run stopped early; otherwise the run is broken (exit 2), never a pass
+        try:
+            if chk.unlisted_failures():
+                chk.note('stopped_early', str(e)[:300])
+                print(f'NOTE property={pid} the analysis stopped early ({str(e)[:200]}); the violations below were established before that')
+                return chk.finish()
+        except NameError:
+            pass
         return analysis_error(pid, str(e))
     except Exception as e:  # a traceback must not look like a violation
         traceback.print_exc(file=sys.stderr)
